@@ -93,16 +93,21 @@ PROPS = {
         ],
     },
     'C01': {
-        'v_units': ['split'],
-        'k_units': [],
-        'level': 'proof',
+        'v_units': ['split', 'switch'],
+        'k_units': ['splitk'],
+        'level': 'other',
         'explanation': (
             'Kernel only. Verus proves that the field-splitting iterator (yash-env/src/semantics/expansion/split/ranges.rs, '
             'Ranges::next, extracted on every run) yields, for inputs of ANY length and any IFS, exactly the fields of a '
             'reference splitter written from XCU 2.6.5 (runs of IFS white space merge into one delimiter together with at most one '
             'other IFS character, every further non-white-space IFS character delimits an empty field, leading/trailing IFS white '
             'space is ignored, no empty field arises otherwise), and that Ifs::classify_attr / classify treat a character as a '
-            'separator only if it is an unquoted result of an expansion. Not decided here: the parameter-expansion modifiers, '
+            'separator only if it is an unquoted result of an expansion. Verus also proves the "unset or null" table of the '
+            'switch forms ${x-w} ${x:-w} ... (Vacancy::of, ValueCondition::with of param/switch.rs) equal to the table of XCU '
+            '2.6.2. Kani (bounded, concrete enumeration: IFS from five fixed values, inputs of <= 2 characters quick / 3 thorough) '
+            'runs the real Ifs::new / non_whitespaces / classify_attr / Ranges::next against an executable reference splitter: '
+            'it covers what the Verus unit leaves uninterpreted (membership in IFS) and yields counterexamples. Level is "other" '
+            'because of the bounded part. Not decided here: the remaining parameter-expansion modifiers (trim, length), '
             'nounset, "$@"/$* joining (Phrase::append / ifs_join), quote removal, the read built-in, the lexer -- all of which '
             'run through async code over Env or through Vec::drain/extend forms outside the verifier\'s subset; a change there is '
             'not seen by this check.'),
